@@ -441,3 +441,10 @@ def run_one(tape, tier, prop):
     with guesser.streams():
         {"C03": run_c03, "C13": run_c13}[prop](tape, tier, res)
     return res
+
+
+def extra_phase(tier, base_seed, prop="C13"):
+    if prop != "C13":
+        return {}
+    from .. import bigworld
+    return bigworld.scorer_phase(tier, base_seed)
